@@ -108,7 +108,7 @@ def add_import(src):
     return src[:m.start()] + new + src[m.end():]
 
 
-def gen_overlay(notes, bdir):
+def gen_overlay(notes, bdir, pid=""):
     """Build <bdir>/overlay.json from /verif/overlay and /repo's current tree."""
     os.makedirs(bdir, exist_ok=True)
     rw = os.path.join(bdir, "rewritten")
@@ -142,6 +142,14 @@ def gen_overlay(notes, bdir):
                 continue
             src = os.path.join(root, fn)
             rel = os.path.relpath(src, tree)
+            # development aid: skip other people's in-progress files of a shared package
+            excl = [x for x in os.environ.get("VERIF_OVERLAY_EXCLUDE", "").split(",") if x]
+            wip = os.path.join(VERIF, "vlib", "wip_exclude.txt")
+            if os.path.exists(wip):
+                excl += [l.strip() for l in open(wip) if l.strip() and not l.startswith("#")]
+            own = pid.lower() + "_"
+            if any(x in rel for x in excl) and not (pid and own in os.path.basename(rel).lower()):
+                continue
             repl[os.path.join(REPO, rel)] = src
     ov = os.path.join(bdir, "overlay.json")
     with open(ov, "w") as f:
@@ -248,7 +256,7 @@ def run_check(pid, spec, tier, seed, replay=None, keep=False):
     notes = []
     known = load_known()
     bdir = os.path.join(BUILD, pid if REPO == "/repo" else pid + "-" + hashlib.sha1(REPO.encode()).hexdigest()[:6])
-    ov, mod = gen_overlay(notes, bdir)
+    ov, mod = gen_overlay(notes, bdir, pid)
     bindir = os.path.join(bdir, "bin")
     os.makedirs(bindir, exist_ok=True)
     scratch = os.environ.get("VERIF_SCRATCH") or "/var/tmp/verif-%s-%d" % (pid, os.getpid())
